@@ -198,6 +198,44 @@ def c16_collision(r):
             'input': "f(1, None, 'a') vs f(1, a=None)"}
 
 
+def c06_nested_abort(r):
+    import diskcache
+    d = tempfile.mkdtemp()
+    try:
+        c = diskcache.Cache(d)
+        c['k'] = b'a' * 100000
+        try:
+            with c.transact():
+                c['k'] = b'b' * 100000
+                raise RuntimeError('abort')
+        except RuntimeError:
+            pass
+        present = 'k' in c
+        try:
+            v = c['k']
+            ok = v == b'a' * 100000
+        except KeyError:
+            ok = False
+        return {'reproduced': present and not ok, 'observed': 'key present: %r, old value readable: %r' % (present, ok)}
+    finally:
+        shutil.rmtree(d, ignore_errors=True)
+
+
+def c08_leak(r):
+    import diskcache
+    d = tempfile.mkdtemp()
+    try:
+        c = diskcache.Cache(d)
+        try:
+            c.set('k', '\ud800' * 40000)
+        except Exception:
+            pass
+        w = [str(x.message) for x in c.check()]
+        return {'reproduced': any('unknown file' in m for m in w), 'observed': w[:3]}
+    finally:
+        shutil.rmtree(d, ignore_errors=True)
+
+
 def main():
     r = json.load(sys.stdin)
     try:
